@@ -132,6 +132,11 @@ func (fr *Frame) callWithArgs(s *State, g *Term, call *ssa.CallCommon, ins ssa.I
 	if b, ok := call.Value.(*ssa.Builtin); ok {
 		return fr.builtin(s, g, b, call, args, pos)
 	}
+	if ins != nil && !fr.spec {
+		savedSite := fr.site
+		fr.site = ins
+		defer func() { fr.site = savedSite }()
+	}
 	if call.IsInvoke() {
 		key := invokeKey(call)
 		fr.oblige("nil", "", pos, g, c.Neq(fnv, c.nilIface()), "method call on non-nil interface")
